@@ -33,14 +33,16 @@ type c19Case struct {
 	Perms [][]int `json:"perms"`
 }
 
-// content is prefix-free (ends at the first ';') so the output can be parsed
-// back unambiguously; some variants contain a newline inside.
+// content is self-delimiting (its only ';' ends it, or is followed by its own final newline) so the output
+// can be parsed back unambiguously; some variants contain a newline inside, one ends with a newline.
 func c19Content(d c19Decl) string {
-	switch d.Var % 3 {
+	switch d.Var % 4 {
 	case 0:
 		return fmt.Sprintf("<%s#%d>;", d.ID, d.Var)
 	case 1:
 		return fmt.Sprintf("<%s#%d>\n  body\n;", d.ID, d.Var)
+	case 3:
+		return fmt.Sprintf("<%s#%d>;\n", d.ID, d.Var)
 	default:
 		return fmt.Sprintf("<%s#%d> ;", d.ID, d.Var)
 	}
@@ -91,6 +93,11 @@ func c19Validate(ds []c19Decl, out string) error {
 		hash := strings.IndexByte(content, '#')
 		id := content[1:hash]
 		in := byID[id]
+		if in != nil && !in.contents[content] && in.contents[content+"\n"] && strings.HasPrefix(rest[end+1:], "\n") {
+			// the variant that ends with its own newline
+			content += "\n"
+			end++
+		}
 		if in == nil || !in.contents[content] {
 			return h.Violf("emitted content %q was not supplied for ID %q", content, id)
 		}
